@@ -4,6 +4,7 @@
 set -e
 cd "$(dirname "$0")"
 python3 translate/gen_integer.py > /dev/null
+python3 -m vlib.genroot
 cd lean
 lake build GivaroModel driver 2>&1 | grep -E "^(error|✖)|Build completed|build failed" || true
 test -x .lake/build/bin/driver
